@@ -1062,7 +1062,8 @@ class XmlDocument(SubXmlBase):
 
         # parse input to set incoming data to related attributes.
         for c in elt:
-            if isinstance(c, etree._Comment):
+            if isinstance(c, (etree._Comment, etree._ProcessingInstruction)):
+                # processing instructions are only here with remove_pis=False
                 continue
 
             key = c.tag.split('}', 1)[-1]
